@@ -193,9 +193,10 @@ def main(run):
                     if t == "bool":
                         blk.append({"n": old, "v": "y", "u": False, "d": False, "t": t, "blk": True})
                     elif t == "int":
-                        blk.append({"n": old, "v": "42", "u": False, "d": False, "t": t, "blk": True})
+                        # (an empty right-hand side is what the tool writes for an int option without a value)
+                        blk.append({"n": old, "v": ["42", "", "7"][(fi // 5) % 3], "u": False, "d": False, "t": t, "blk": True})
                     elif t == "string":
-                        blk.append({"n": old, "v": "blk", "u": False, "d": False, "t": t, "blk": True})
+                        blk.append({"n": old, "v": ["blk", "rock 'n'", 'a"b', "a\\b", "'q'"][(fi // 5) % 5], "u": False, "d": False, "t": t, "blk": True})
             full = [dict(ln, blk=False) for ln in f] + blk
             rw = rewrite([ln for ln in full if not ln["blk"]], tab_lines)
             case = {
@@ -216,10 +217,12 @@ def main(run):
                             got = {0: "n", 2: "y"}.get(k.eval_string(ln["n"]), "?")
                             evals.append([ln["n"], ln["v"], got])
                         elif ln["t"] == "int":
+                            if ln["v"] == "":
+                                continue  # nothing was written for it: loading must simply not raise
                             got = {0: "n", 2: "y"}.get(k.eval_string("%s = %s" % (ln["n"], ln["v"])), "?")
                             evals.append([ln["n"] + "=" + ln["v"], "y", got])
                         else:
-                            got = {0: "n", 2: "y"}.get(k.eval_string('%s = "%s"' % (ln["n"], ln["v"])), "?")
+                            got = {0: "n", 2: "y"}.get(k.eval_string("%s = %s" % (ln["n"], ktree.q(ln["v"]))), "?")
                             evals.append([ln["n"] + "=" + ln["v"], "y", got])
                     kc.reset_report(k)
                 case["obs"] = {"vals": vals, "vals_rw": vals_rw, "missing": missing, "vals_noblock": vals_nb, "evals": evals}
